@@ -311,6 +311,7 @@ func genNetSetNets(r *rng, tags map[string]bool) []net.IPNet {
 		var s string
 		if r.chance(25) {
 			s = r.pick(cidrs6)
+			tags["net:v6-cidr"] = true
 		} else {
 			s = r.pick(cidrs4)
 		}
@@ -447,6 +448,27 @@ func main() {
 		selIDs := map[string]int{}
 		setSel := map[int]string{} // current canonical selector text of each live IP set
 
+		liveNets := map[int]map[string]bool{} // endpoint -> printed nets, to tag shared members
+		noteNets := func(eid int, nets []string) {
+			for other, ns := range liveNets {
+				if other == eid {
+					continue
+				}
+				for _, n := range nets {
+					if ns[n] {
+						tags["member:shared-by-endpoints"] = true
+					}
+				}
+			}
+			m := map[string]bool{}
+			for _, n := range nets {
+				if m[n] {
+					tags["net:duplicate-in-one-endpoint"] = true
+				}
+				m[n] = true
+			}
+			liveNets[eid] = m
+		}
 		nops := 10 + r.intn(31)
 		var ops, evs, sample []string
 		totalEvents := 0
@@ -524,6 +546,7 @@ func main() {
 						Labels: uniquelabels.Make(lbls), Ports: ports}
 					opCoq = fmt.Sprintf("(OpEp %d KWep %s [%s] %s %s)", eid, coqLabels(lbls), strings.Join(netsCoq, "; "), coqPorts(ports), coqNs(parents))
 					opTxt = fmt.Sprintf("WEP e%d labels=%v nets=%v ports=%v profiles=%v", eid, lbls, netsCoq, ports, parents)
+					noteNets(eid, netsCoq)
 					runOp(func() { idx.OnUpdate(api.Update{KVPair: model.KVPair{Key: key, Value: val}}) })
 				case eid == 3: // host endpoint through OnUpdate
 					var a4, a6 []calinet.IP
@@ -544,6 +567,7 @@ func main() {
 						ProfileIDs: parentNames(parents), Ports: ports}
 					opCoq = fmt.Sprintf("(OpEp %d KHep %s [%s] %s %s)", eid, coqLabels(lbls), strings.Join(netsCoq, "; "), coqPorts(ports), coqNs(parents))
 					opTxt = fmt.Sprintf("HEP e%d labels=%v ips=%v ports=%v profiles=%v", eid, lbls, netsCoq, ports, parents)
+					noteNets(eid, netsCoq)
 					runOp(func() { idx.OnUpdate(api.Update{KVPair: model.KVPair{Key: key, Value: val}}) })
 				case eid <= 6: // network set through OnUpdate
 					raw := genNetSetNets(r, tags)
@@ -557,6 +581,7 @@ func main() {
 					val := &model.NetworkSet{Nets: nets, Labels: uniquelabels.Make(lbls), ProfileIDs: parentNames(parents)}
 					opCoq = fmt.Sprintf("(OpEp %d KNetSet %s [%s] [] %s)", eid, coqLabels(lbls), strings.Join(netsCoq, "; "), coqNs(parents))
 					opTxt = fmt.Sprintf("NetSet e%d labels=%v nets=%v profiles=%v", eid, lbls, netsCoq, parents)
+					noteNets(eid, netsCoq)
 					runOp(func() { idx.OnUpdate(api.Update{KVPair: model.KVPair{Key: key, Value: val}}) })
 				default: // direct UpdateEndpointOrSet: CIDR nets together with named ports
 					raw := genNetSetNets(r, tags)
@@ -570,10 +595,12 @@ func main() {
 					ports := genPorts(r, tags)
 					opCoq = fmt.Sprintf("(OpEp %d KRaw %s [%s] %s %s)", eid, coqLabels(lbls), strings.Join(netsCoq, "; "), coqPorts(ports), coqNs(parents))
 					opTxt = fmt.Sprintf("Raw e%d labels=%v nets=%v ports=%v profiles=%v", eid, lbls, netsCoq, ports, parents)
+					noteNets(eid, netsCoq)
 					runOp(func() { idx.UpdateEndpointOrSet("raw7", uniquelabels.Make(lbls), nets, ports, parentNames(parents)) })
 				}
 			case k < 76: // delete endpoint / network set
 				eid := r.intn(8)
+				delete(liveNets, eid)
 				opCoq = fmt.Sprintf("(OpDelEp %d)", eid)
 				opTxt = fmt.Sprintf("DeleteEndpoint e%d", eid)
 				var key model.Key
@@ -617,6 +644,39 @@ func main() {
 				break
 			}
 			var es, et []string
+			addSets, remSets := map[string]bool{}, map[string]bool{}
+			for _, e := range cur {
+				if e.add {
+					addSets[e.set] = true
+				} else {
+					remSets[e.set] = true
+				}
+				if pm, ok := e.m.(portMember); ok {
+					tags["member:port"] = true
+					tags["member:port-proto-"+pm.Protocol().String()] = true
+					if pm.CIDR().Version() == 6 {
+						tags["member:port-v6"] = true
+					}
+				} else if cm, ok := e.m.(ipsetmember.CIDROrIPOnlyIPSetMember); ok {
+					if cm.CIDR().Version() == 6 {
+						tags["member:cidr-v6"] = true
+					}
+					if int(cm.CIDR().Prefix()) < map[uint8]int{4: 32, 6: 128}[cm.CIDR().Version()] {
+						tags["member:cidr-net"] = true
+					} else {
+						tags["member:cidr-host"] = true
+					}
+				}
+			}
+			for sidName := range addSets {
+				if remSets[sidName] {
+					if sup {
+						tags["suppress:add+withdraw-in-one-op"] = true
+					} else {
+						tags["op:add+remove-same-set"] = true
+					}
+				}
+			}
 			for _, e := range cur {
 				var sid int
 				fmt.Sscanf(e.set, "s%d", &sid)
